@@ -797,12 +797,17 @@ class Model(Object):
                     obj_coef = reaction.objective_coefficient
 
                     if obj_coef != 0:
-                        context(
-                            partial(
-                                self.solver.objective.set_linear_coefficients,
-                                {forward: obj_coef, reverse: -obj_coef},
+
+                        def reset_objective_coefficient(
+                            forward=forward, reverse=reverse, obj_coef=obj_coef
+                        ):
+                            # Look the objective up when undoing: it may have been
+                            # replaced since the reaction was removed.
+                            self.solver.objective.set_linear_coefficients(
+                                {forward: obj_coef, reverse: -obj_coef}
                             )
-                        )
+
+                        context(reset_objective_coefficient)
 
                     context(partial(self._populate_solver, [reaction]))
                     context(partial(setattr, reaction, "_model", self))
